@@ -10,6 +10,7 @@ import (
 	"reflect"
 	"regexp"
 	"strconv"
+	"strings"
 	"sync"
 	"unicode"
 
@@ -789,6 +790,10 @@ func (f *TimespanFormat) parse(str string) (time.Duration, bool) {
 			return 0, false
 		}
 		nanoseconds += segment.nanoseconds(group, segment.multiplier())
+	}
+	if strings.HasPrefix(str, `-`) {
+		// the regexp accepts a leading minus sign; it applies to the whole value
+		nanoseconds = -nanoseconds
 	}
 	return time.Duration(nanoseconds), true
 }
